@@ -63,6 +63,7 @@ def handleC02 (j : Json) : Except String Verdict := do
               | "ref" => do pure (some (refStepR dflt (d + 1) tb (ranksPaths Rb) (← asInts (← field opJ "p"))))
               | "posref" => do pure (some (refStepR dflt (d + 1) tb (ranksPaths Rb) (at_ ++ [← fInt opJ "c"])))
               | "clear" => pure (some (clearStepR d tb (ranksPaths Rb) at_))
+              | "assignf" => do pure (some (assignStepR dflt d tb (ranksPaths Rb) at_ (treeArgOfJson (← field opJ "f"))))
               | _ => pure none)
             match model with
             | some (mt, mR) =>
